@@ -540,6 +540,7 @@ func POIndexConfig(txtAPI hwapi.LowLevelHardwareInterfaces, p *PreSet) (bool, er
 		if d1.Size != tpm12POIndexSize {
 			return false, fmt.Errorf("TPM1 PO Index size incorrect. Have: %v - Want: %v", d1.Size, tpm12POIndexSize), nil
 		}
+		return true, nil, nil
 	case hwapi.TPMVersion20:
 		raw, err = txtAPI.ReadNVPublic(tpmCon, tpm20POIndex)
 		if err != nil {
@@ -593,6 +594,7 @@ func POIndexConfig(txtAPI hwapi.LowLevelHardwareInterfaces, p *PreSet) (bool, er
 		if d2.DataSize != size {
 			return false, fmt.Errorf("TPM2 PO Index incorrect. Have: %v - Want: %v", d2.DataSize, size), nil
 		}
+		return true, nil, nil
 	}
 	return false, fmt.Errorf("unknown TPM device version"), nil
 }
